@@ -2,7 +2,10 @@ module symgo
 
 go 1.24.0
 
-require golang.org/x/tools v0.29.0
+require (
+	github.com/gobwas/glob v0.2.3
+	golang.org/x/tools v0.29.0
+)
 
 require (
 	golang.org/x/mod v0.22.0 // indirect
